@@ -139,6 +139,7 @@ pub fn run(thorough: bool) -> Vec<Part> {
         let limits = Limits { max_states: 6_000_000, max_secs: if thorough { 3000.0 } else { 120.0 }, ..Default::default() };
         let st = bfs(&cfg, &limits, workers());
         record(&mut part, "fd-alphabet", &st);
+        crate::explore::require_facts(&mut part, "fd-alphabet", &st, &["descriptors_on_read_completing_no_request", "descriptors_on_read_completing_one_request", "descriptors_on_read_completing_several_requests", "descriptors_on_eof_read"]);
         for (v, _) in &st.violations {
             part.violations.push(v.clone());
         }
